@@ -2,7 +2,7 @@
 from hypothesis import strategies as st
 
 from vf import gen_tx
-from vf.core import Fails, Target, attempt, bx, hx, raised
+from vf.core import Fails, Target, attempt, bx, hx, pair, raised
 from vf.ref import txref
 
 PROPERTY = "C04"
@@ -30,13 +30,27 @@ def _feature(rtx, raw, trailing):
 
 def _compare(f, d, left, rtx, raw, trailing, ctx, feat):
     tag = f"{ctx}/{feat}"
+    if not isinstance(d, dict):
+        f.add(f"txid/ne-consensus/{tag}", f"not a dict: {d!r}"[:120])
+        return
     f.expect(d.get("txid") == txref.txid(rtx).hex(), f"txid/ne-consensus/{tag}", d.get("txid"))
     f.expect(d.get("wtxid") == txref.wtxid(rtx).hex(), f"wtxid/ne-consensus/{tag}", d.get("wtxid"))
     if not rtx["segwit"]:
         f.expect(d.get("txid") == d.get("wtxid"), f"txid-ne-wtxid-on-legacy/{tag}")
-    f.expect(d.get("raw") == raw.hex(), f"raw/ne-tx-bytes/{tag}", f"len {len(d.get('raw', '')) // 2} vs {len(raw)}")
+    rawval = d.get("raw", "")
+    f.expect(rawval == raw.hex(), f"raw/ne-tx-bytes/{tag}", f"len {len(rawval) // 2 if isinstance(rawval, (str, bytes, bytearray)) else repr(rawval)[:40]} vs {len(raw)}")
     if left is not None:
-        f.expect(left == trailing, f"leftover/ne-trailing/{tag}", f"{left[:24]!r}")
+        f.expect(left == trailing, f"leftover/ne-trailing/{tag}", f"{left[:24]!r}" if isinstance(left, (bytes, bytearray, str)) else repr(left)[:60])
+
+
+def _compare_result(f, r, rtx, raw, trailing, ctx, feat):
+    """_compare() for what tx_deser(..., include_raw=True) returned: (dict, leftover). Anything else is a txid mismatch."""
+    dl = pair(r)
+    if dl is None:
+        f.add(f"txid/ne-consensus/{ctx}/{feat}", f"not a (dict, leftover) pair: {r!r}"[:120])
+        return None
+    _compare(f, dl[0], dl[1], rtx, raw, trailing, ctx, feat)
+    return dl[0]
 
 
 def check(case):
@@ -81,22 +95,22 @@ def check(case):
     if raised(r):
         f.add(f"deser-raises/alone/{feat}", r)
     else:
-        _compare(f, r[0], r[1], rtx, raw, b"", "alone", "segwit-nonfinal-seq" if "segwit-nonfinal-seq" in feats else "plain")
-        if not f and isinstance(r[0], dict):
+        d0 = _compare_result(f, r, rtx, raw, b"", "alone", "segwit-nonfinal-seq" if "segwit-nonfinal-seq" in feats else "plain")
+        if not f and isinstance(d0, dict):
             # the same bytes once more, after the caller has edited the dict it was handed the first time
-            r[0].clear()
+            d0.clear()
             r2 = attempt(bits.tx.tx_deser, raw, include_raw=True)
             if raised(r2):
                 f.add("deser-raises/alone-again/plain", r2)
             else:
-                _compare(f, r2[0], r2[1], rtx, raw, b"", "alone-again-after-caller-edited-earlier-result", "plain")
+                _compare_result(f, r2, rtx, raw, b"", "alone-again-after-caller-edited-earlier-result", "plain")
     # context 2: followed by the buffer
     if trailing:
         r = attempt(bits.tx.tx_deser, raw + trailing, include_raw=True)
         if raised(r):
             f.add(f"deser-raises/trailing/{feat}", r)
         else:
-            _compare(f, r[0], r[1], rtx, raw, trailing, "trailing", feat)
+            _compare_result(f, r, rtx, raw, trailing, "trailing", feat)
     # context 3: inside a block
     blk = case.get("block")
     if blk:
@@ -114,8 +128,10 @@ def check(case):
         if raised(bd):
             f.add(f"deser-raises/block/{'dup' if blk.get('dup') else 'nodup'}", bd)
         else:
-            txns = bd.get("txns", [])
-            if f.expect(len(txns) == len(txs), "block/tx-count", f"{len(txns)} vs {len(txs)}"):
+            txns = bd.get("txns", []) if isinstance(bd, dict) else None
+            if not isinstance(txns, (list, tuple)):
+                f.add("block/tx-count", f"no list of transactions: {bd!r}"[:120])
+            elif f.expect(len(txns) == len(txs), "block/tx-count", f"{len(txns)} vs {len(txs)}"):
                 for k, (d, t, rw) in enumerate(zip(txns, txs, raws)):
                     rest = b"".join(raws[k + 1 :])
                     ft = "+".join(_feature(t, rw, rest)) or "plain"
